@@ -806,7 +806,9 @@ def _contract_group(group, probe=None, probe_ref: str = "props.lexical:probe_par
                 b = backends.setdefault(k, [0, 0.0])
                 b[0] += v[0]
                 b[1] = round(b[1] + v[1], 3)
-            extra = {k: v for k, v in (out.extra or {}).items() if k in ("inlined", "opaque_calls")} or extra
+            keep = {k: v for k, v in (out.extra or {}).items() if k in ("inlined", "opaque_calls")} or {k: v for k, v in extra.items() if k != "restricted_to_default_parameters"}
+            restricted = sorted(set(extra.get("restricted_to_default_parameters", [])) | set((out.extra or {}).get("restricted_to_default_parameters", [])))
+            extra = dict(keep, **({"restricted_to_default_parameters": restricted} if restricted else {}))
             if out.status == "refuted":
                 wits += out.witnesses
             elif out.status != "discharged":
